@@ -594,6 +594,7 @@ func c11(c *core.Check) {
 	argNameRule(c, r5, "html/layout", map[string]bool{"inline.go": true, "leader.go": true}, 40)
 	argNameRule(c, r5, "text", nil, 5)
 	c11TextAlign(c)
+	c11Offsets(c)
 
 }
 
